@@ -1057,6 +1057,20 @@ func (h *Hashgraph) DecideRoundReceived() error {
 		for i := r + 1; i <= h.Store.LastRound(); i++ {
 			tr, err := h.Store.GetRound(i)
 			if err != nil {
+				// After a Reset (fastsync) the rounds at or below the
+				// roundLowerBound only exist if a Frame or Root Event belongs
+				// to them. An Event with a low round (a joiner's first Event
+				// without other-parent has round 0; an old Event of a lagging
+				// participant) must not be stuck on such a gap: like the
+				// undecided rounds below the lower bound (see further down),
+				// skip it. Otherwise the Event is never received, its
+				// transactions are missing from this node's Blocks, and the
+				// node silently forks from the nodes that have the full
+				// history.
+				if h.roundLowerBound != nil && i <= *h.roundLowerBound {
+					continue
+				}
+
 				// When a node joins, it can have a first event with round 0 (if
 				// it doesn't have any other-parent). If the other nodes have
 				// already processed many rounds (more than the cache-limit),
